@@ -155,6 +155,8 @@ End ==
      ELSE IF pend THEN Reject("end: the loop did not report convergence although the measure was below the threshold")
      ELSE IF budget > 0 /\ ~stopped THEN Reject("end: returned before the limit without convergence")
      ELSE IF Ev.it # iter THEN Reject("end: reported iteration is not the number of sweeps applied")
+     ELSE IF ~Ev.retok THEN Reject("end: the SolverState returned by solve() is not the state the solver holds (values, policy, iteration, gain, history index, period)")
+     ELSE IF ~Ev.vhok THEN Reject("end: the returned value history does not hold the last period+1 iterates in its circular order")
      ELSE IF ~Ev.vok \/ Ev.v # V THEN Reject("end: returned values are not the values of the last sweep")
      ELSE IF ~Ev.polok THEN Reject("end: returned policy contains a vector that is not in the action space")
      ELSE IF ~PolicyGreedy THEN Reject("end: returned policy is not greedy for the returned values")
